@@ -105,7 +105,6 @@ package raft
 //@ iface Transport.SendAppendEntries(address, request) (response, err)
 //@ iface Transport.SendInstallSnapshot(address, request) (response, err)
 
-
 // respond: non-blocking send on the future's buffered channel (select with default).
 //@ func respond
 //@   flags trusted
